@@ -293,7 +293,44 @@ def shard_helper_starts(m, items, inputs=(), prof=('a', 'b')):
                 m.violation(f'named-start/{start}', input=t, got=got, want=want)
 
 
+# ------------------------------------------------------------ a rule's value is one element of its caller
+
+CALLEE_BODIES = {          # body text -> value of the rule on input 'a b' / 'a'
+    "=('a' 'b')": {'a b': ['a', 'b']},
+    "@:('a' 'b')": {'a b': ['a', 'b']},
+    "@+:'a' @+:'b'": {'a b': ['a', 'b']},
+    "=('a' {'b'}+)": {'a b': ['a', ['b']]},
+    "'a' 'b'": {'a b': ['a', 'b']},
+    "{'a'}+ 'b'": {'a b': [['a'], 'b']},
+    "x:'a' 'b'": {'a b': {'x': 'a'}},
+}
+
+
+def callee_values(rc):
+    """`start` calls `r` before, between and after tokens: whatever list `r` returns, it is one element of start's list."""
+    for body, vals in CALLEE_BODIES.items():
+        for text_r, val in vals.items():
+            for pos, (tmpl, inp, want) in {
+                'first': ("start: r 'c' $ ;", f'{text_r} c', [val, 'c']),
+                'middle': ("start: 'c' r 'c' $ ;", f'c {text_r} c', ['c', val, 'c']),
+                'last': ("start: 'c' r $ ;", f'c {text_r}', ['c', val]),
+                'alone-then-closure': ("start: r {'c'} $ ;", f'{text_r} c', [val, ['c']]),
+            }.items():
+                gtext = f"{tmpl}\n\nr: {body} ;\n"
+                model = impl.compile_text(gtext)
+                got = impl.parse(model, inp)
+                rc.add('evaluations')
+                rc.add('states')
+                rc.add('transitions')
+                rc.add('nontrivial')
+                if got != ('ok', want):
+                    opened = body.startswith(('=', '@')) and pos in ('first', 'alone-then-closure')
+                    sig = 'defect:override-list-value-spliced-into-caller' if opened else f'callee-value-not-one-element/{pos}'
+                    rc.violation(sig, grammar=gtext, input=inp, got=got, want=['ok', want])
+
+
 def run(rc):
+    callee_values(rc)
     maxn = 3 if rc.tier == 'quick' else 4
     maxlen = 4 if rc.tier == 'quick' else 5
     prof = profile(rc.seed)
